@@ -591,8 +591,6 @@ func hiddenFP(in *inst) (out fpParts) {
 		b := make([]byte, 0, 48)
 		b = append(b, 't')
 		b = strconv.AppendInt(b, tv, 10)
-		b = append(b, 'c')
-		b = strconv.AppendInt(b, int64(cap(vs.Validators)-len(vs.Validators)), 10)
 		if pf.IsNil() {
 			out[u] = string(append(b, "nil"...))
 			continue
